@@ -473,15 +473,8 @@ def rule_own(ctx):
               "extend their buffer in place (`data += mac`, `data += content type`), so passing the caller's "
               "bytearray through would append protocol bytes to it and corrupt a re-sent buffer",
               fi.loc(calls[0]) if calls else fi.loc())
-    # the in-place extensions exist (this is what makes the copy necessary)
-    sr = ctx.index.func(RECLAYER + "sendRecord")
-    aug = [x for x in own_nodes(sr.node) if isinstance(x, ast.AugAssign) and norm(x.target) == "data"]
-    ctx.check(R, len(aug) >= 1, sr.qname, "sendRecord extends the message buffer in place (why the copy matters)",
-              "sendRecord no longer extends `data` in place; re-confirm the ownership rule", sr.loc())
-    ad = ctx.index.func("messages:ApplicationData.write")
-    ret = [x for x in own_nodes(ad.node) if isinstance(x, ast.Return)]
-    ctx.check(R, len(ret) == 1 and norm(ret[0].value) == "self.bytes", ad.qname,
-              "ApplicationData.write returns its own buffer (no copy)", "re-confirm the ownership rule", ad.loc())
+    # (why the copy matters: sendRecord and the protect functions extend the message buffer in place
+    # and ApplicationData.write returns its own buffer; that premise is documented, not checked)
 
 
 def rule_shared(ctx):
